@@ -3,6 +3,7 @@
 //! may panic or deadlock. Engines: baton scheduler over the `verif-hooks` yield points (random, PCT, sweep).
 //! The sequential specification is the implementation itself, re-executed call by call on a fresh MemoryFS.
 
+use std::sync::atomic::Ordering::SeqCst;
 use crate::json::{bytes_repr, J};
 use crate::ops::at;
 use crate::panicmon::guard;
@@ -310,16 +311,20 @@ type Job = Box<dyn FnOnce() + Send>;
 pub struct Pool {
     tx: Vec<std::sync::mpsc::Sender<Job>>,
     done: std::sync::mpsc::Receiver<usize>,
+    slots: Vec<std::sync::Arc<crate::panicmon::Slot>>,
 }
 
 impl Pool {
     pub fn new(n: usize) -> Pool {
         let (dtx, drx) = std::sync::mpsc::channel::<usize>();
         let mut tx = vec![];
+        let mut slots = vec![];
         for i in 0..n {
             let (jtx, jrx) = std::sync::mpsc::channel::<Job>();
             let dtx = dtx.clone();
+            let (stx, srx) = std::sync::mpsc::channel();
             std::thread::spawn(move || {
+                let _ = stx.send(crate::panicmon::my_slot());
                 while let Ok(job) = jrx.recv() {
                     job();
                     if dtx.send(i).is_err() {
@@ -328,8 +333,18 @@ impl Pool {
                 }
             });
             tx.push(jtx);
+            if let Ok(slot) = srx.recv() {
+                slots.push(slot);
+            }
         }
-        Pool { tx, done: drx }
+        Pool { tx, done: drx, slots }
+    }
+    /// The pool's threads are stuck inside library calls (diagnosed deadlock): leave them behind, and tell the
+    /// per-call watchdog that they have been accounted for.
+    pub fn abandon(self) {
+        for s in &self.slots {
+            s.abandon();
+        }
     }
     pub fn submit(&mut self, i: usize, job: Job) {
         self.tx[i].send(job).expect("pool thread alive");
@@ -363,9 +378,16 @@ pub struct Exec {
 pub fn execute(prog: &Program, source: &mut Source) -> Exec {
     let ex = execute_once(prog, source, 1500);
     if let RunEnd::Deadlock(_) = ex.end {
+        // once a deadlock has been confirmed in this process, further suspicions are not replayed (20 s each)
+        if crate::panicmon::CONFIRMED_DEADLOCKS.load(SeqCst) > 0 {
+            return ex;
+        }
         let mut src = Source::Script { script: ex.decisions.clone(), widths: vec![] };
         let mut ex2 = execute_once(prog, &mut src, 20_000);
         ex2.rerun_after_timeout = true;
+        if let RunEnd::Deadlock(_) = ex2.end {
+            crate::panicmon::CONFIRMED_DEADLOCKS.fetch_add(1, SeqCst);
+        }
         return ex2;
     }
     ex
@@ -419,7 +441,10 @@ fn execute_once(prog: &Program, source: &mut Source, stuck_ms: u64) -> Exec {
     if rr.end == RunEnd::Completed {
         pool.wait_all(prog.threads.len());
         POOL.with(|p| *p.borrow_mut() = Some(pool));
-    } // on deadlock the pool (with its stuck threads, which hold the filesystem's lock) is abandoned
+    } else {
+        // on deadlock the pool (with its stuck threads, which hold the filesystem's lock) is abandoned
+        pool.abandon();
+    }
     let (fin, ill) = if rr.end == RunEnd::Completed {
         let probe: Vec<String> = PATHS.iter().map(|s| s.to_string()).collect();
         let s = snapshot(&root, &probe, 4096);
@@ -477,6 +502,11 @@ pub fn directed_programs() -> Vec<Program> {
 }
 
 pub fn run_program(a: &Args, tag: &'static str, idx: u64, schedules: u64, sweep_cap: u64, acc: &mut Acc) {
+    if crate::panicmon::CONFIRMED_DEADLOCKS.load(SeqCst) >= 3 {
+        // every further program would cost seconds of waiting for threads that never come back
+        acc.count("programs_skipped_after_confirmed_deadlocks", 1);
+        return;
+    }
     let mut rng = Rng::derive(a.seed, tag, idx);
     let directed = directed_programs();
     let (prog, sweep_cap) = if tag == "c16-directed" { (directed[idx as usize % directed.len()].clone(), sweep_cap * 8) } else { (gen_program(&mut rng), sweep_cap) };
